@@ -22,6 +22,10 @@ import BU.Properties.C20_GenCurve
 #print axioms C20Gen.gen_point_mul
 #print axioms C20Gen.gen_lift_x
 #print axioms C20Gen.gen_has_even_y
+#print axioms C20Gen.gen_schnorr_verify
+#print axioms C20Gen.gen_schnorr_sign
 #print axioms C20GenCurve.gen_mulG_add
 #print axioms C20GenCurve.gen_order
 #print axioms C20GenCurve.gen_ripemd160_eq_spec
+#print axioms C20GenCurve.gen_verify_eq_spec
+#print axioms C20GenCurve.gen_sign_ok
